@@ -52,6 +52,8 @@ type script struct {
 	View   string          `json:"view"`
 	Error  *scriptedError  `json:"error"`
 	Auth   map[string]bool `json:"auth"` // scheme callback -> accept; missing = accept
+	// TamperView, when set, replaces the goa-view header of the response before the client sees it (C08)
+	TamperView *string `json:"tamper_view"`
 }
 
 type scriptedError struct {
@@ -311,6 +313,12 @@ func (rt *Runtime) roundTrip(id string, raw []byte, w *wire) (*http.Response, er
 	w.RespHeaders = map[string][]string{}
 	for k, v := range res.Header {
 		w.RespHeaders[k] = v
+	}
+	rt.mu.Lock()
+	tv := st.script.TamperView
+	rt.mu.Unlock()
+	if tv != nil {
+		res.Header.Set("goa-view", *tv)
 	}
 	return res, nil
 }
